@@ -1,7 +1,20 @@
 (* Semantic correctness of the lowering of side-effect-free integer expressions, for the
    REPAIRED compiler model (cfg_fx = all_fixes): whenever C11 (sem/CSem.v) gives the expression a
-   value, the emitted RzIL term (sem/RzIL.v) evaluates to that value, at the C type. *)
-From Coq Require Import ZArith NArith List Bool String Lia ZifyBool ZifyN.
+   value, the emitted RzIL term (sem/RzIL.v) evaluates to that value, at the C type.
+
+   Leaves of the fragment [pfrag rw V e]: integer literals, declared locals (V), and the instruction's
+   OPERANDS: register operands of classes R P C M with any access letters of Lower.access_of_letters
+   (sources RsV..RwV, read-write RxV..RzV, destinations RdV ReV read back, pairs RssV..RxxV RddV),
+   .new operands (PuN, NsN, ...) and immediates (siV, uiV, ...; any set IM of letters, [imm_letter] = the
+   eight letters of the grammar).
+   The model emits a register read as a placeholder that Lower.fin_pure resolves at emission time from
+   the FINAL access kind of the register, so the theorem is about the FINALISED term, for every later
+   register table R ([regs_le]); an immediate is read through the RzIL local its prologue entry
+   (Lower.st_imms) sets, so the IL state is one in which that prologue has run ([imms_done]).  The
+   state relation [rel] ties the C operand environment (cenv: old register file, new-value bank,
+   immediates) and the registers assigned so far to the IL machine state; READ_REG follows the contract
+   of RzIL.read_reg. *)
+From Coq Require Import ZArith NArith List Bool String Ascii Lia ZifyBool ZifyN.
 From RZ.lib Require Import BV PyHeap.
 From RZ.sem Require Import RzIL CSem.
 From RZ.gen Require Import TypeRules.
@@ -237,13 +250,246 @@ Proof.
   try destruct hex; cbn [In] in Hin; intuition (subst; cbn; auto).
 Qed.
 
+(* ================================================================== Layer 1b: operand names, immediates, the register table of the model state *)
+Lemma append_empty_r s : s +++ "" = s.
+Proof. induction s as [|c s IH]; cbn [append]; [reflexivity | rewrite IH; reflexivity]. Qed.
+
+Lemma substring_full s : substring 0 (String.length s) s = s.
+Proof. induction s as [|c s IH]; cbn [String.length substring]; [reflexivity | rewrite IH; reflexivity]. Qed.
+
+Lemma substring_0_0 s : substring 0 0 s = "".
+Proof. destruct s; reflexivity. Qed.
+
+Lemma reg_name_of_reg n : reg_name_of ("$reg:" +++ n) = Some n.
+Proof.
+  unfold reg_name_of, reg_prefix. cbn [append substring String.length].
+  rewrite substring_0_0. cbn [String.eqb Ascii.eqb Bool.eqb Nat.sub].
+  rewrite Nat.sub_0_r, substring_full. reflexivity.
+Qed.
+
+Lemma lookup_app {A} x (l1 l2 : list (string * A)) :
+  lookup x (l1 ++ l2) = match lookup x l1 with Some v => Some v | None => lookup x l2 end.
+Proof.
+  induction l1 as [|[y v] t IH]; cbn [app lookup]; [reflexivity|].
+  destruct (String.eqb x y); [reflexivity | exact IH].
+Qed.
+
+Lemma lookup_none_existsb {A} x (l : list (string * A)) :
+  lookup x l = None -> existsb (fun p => String.eqb (fst p) x) l = false.
+Proof.
+  induction l as [|[y v] t IH]; cbn [lookup existsb fst]; [reflexivity|].
+  rewrite (String.eqb_sym y x). destruct (String.eqb x y); [discriminate|]. exact IH.
+Qed.
+
+Lemma lookup_some_existsb {A} x (l : list (string * A)) v :
+  lookup x l = Some v -> existsb (fun p => String.eqb (fst p) x) l = true.
+Proof.
+  induction l as [|[y w] t IH]; cbn [lookup existsb fst]; [discriminate|].
+  rewrite (String.eqb_sym y x). destruct (String.eqb x y); [reflexivity|]. exact IH.
+Qed.
+
+(* ------------------------------------------------------------------ immediates *)
+(* the letters the grammar accepts in <letter>iV (gen/GrammarTables.term_IMMEDIATE = /[rRsSuUmn]/) *)
+Definition imm_letter (l : string) : bool := existsb (String.eqb l) ["r"; "R"; "s"; "S"; "u"; "U"; "m"; "n"].
+Definition imm_ty (l : string) : vtype := ty_int (imm_signed l) 32.
+Definition imm_entry (l : string) : effect := ESetL l (PImm l (imm_signed l) 32).
+(* CSem keeps an assigned immediate in the C local "imm:<letter>" *)
+Definition imm_cname (x : string) : bool := String.eqb (substring 0 4 x) "imm:".
+Lemma imm_cname_imm l : imm_cname ("imm:" +++ l) = true.
+Proof. unfold imm_cname. cbn [append substring]. rewrite substring_0_0. reflexivity. Qed.
+
+(* ------------------------------------------------------------------ register operands *)
+(* register operands of the fragment: classes R P C M with the access letters of Lower.access_of_letters,
+   and for .new operands also class N (NsN) *)
+Definition dest_cls (cls : string) : Prop := cls = "R" \/ cls = "P" \/ cls = "C" \/ cls = "M".
+Definition reg_cls (new : bool) (cls : string) : Prop := dest_cls cls \/ (new = true /\ cls = "N").
+Definition cls_w (cls : string) : N := if String.eqb cls "P" then 8%N else 32%N.
+Definition dest_w (cls : string) (acc : access) : N := if is_pair acc then (cls_w cls * 2)%N else cls_w cls.
+Definition sfx (new : bool) : string := if new then "_new" else "".
+(* the name under which Lower.lower_reg registers the operand, and its operand handle *)
+Definition rname (cls letters : string) (new : bool) : string := cls +++ letters +++ sfx new.
+Definition rop (cls letters : string) (new : bool) : regop :=
+  if String.eqb cls "N" then RNreg (substring 0 1 letters) else RIsa cls (substring 0 1 letters) new.
+
+Lemma rname_false cls letters : rname cls letters false = cls +++ letters.
+Proof. unfold rname, sfx. rewrite append_empty_r. reflexivity. Qed.
+Lemma rop_dest cls letters new : dest_cls cls -> rop cls letters new = RIsa cls (substring 0 1 letters) new.
+Proof. intros [-> | [-> | [-> | ->]]]; reflexivity. Qed.
+
+Lemma dest_cls_widths cls : dest_cls cls ->
+  reg_width cls = Some (cls_w cls) /\ class_width cls = Some (cls_w cls) /\ String.eqb cls "N" = false.
+Proof. intros [-> | [-> | [-> | ->]]]; repeat split; reflexivity. Qed.
+Lemma reg_cls_widths new cls : reg_cls new cls ->
+  reg_width cls = Some (cls_w cls) /\ class_width cls = Some (cls_w cls).
+Proof. intros [[-> | [-> | [-> | ->]]] | [_ ->]]; split; reflexivity. Qed.
+
+Lemma dest_w_okw cls acc : dest_cls cls -> okw (dest_w cls acc).
+Proof. intros [-> | [-> | [-> | ->]]]; unfold dest_w; destruct (is_pair acc); vm_compute; auto 6. Qed.
+Lemma reg_w_okw new cls acc : reg_cls new cls -> okw (dest_w cls acc).
+Proof. intros [H | [_ ->]]; [apply dest_w_okw; exact H|]. unfold dest_w; destruct (is_pair acc); vm_compute; auto 6. Qed.
+
+Definition letter_table : list string :=
+  ["s"; "t"; "u"; "v"; "w"; "d"; "e"; "x"; "y"; "z"; "ss"; "tt"; "uu"; "vv"; "dd"; "xx"; "yy"].
+
+Ltac letters_cases letters tac :=
+  unfold access_of_letters; cbn [existsb];
+  repeat match goal with
+         | |- context [String.eqb letters ?s] =>
+             destruct (String.eqb_spec letters s) as [->|?]; [tac|]
+         end;
+  cbn; discriminate.
+
+Lemma access_pair letters acc : access_of_letters letters = Some acc -> is_pair acc = is_pair_letters letters.
+Proof. letters_cases letters ltac:(cbn; intros H; injection H as <-; reflexivity). Qed.
+
+Lemma access_in_table letters acc : access_of_letters letters = Some acc -> In letters letter_table.
+Proof. letters_cases letters ltac:(intros _; cbn; tauto). Qed.
+
+(* destination-only operands (d, e, dd): the only ones whose reads are finalised to the NEW bank, and the
+   ones C initialises to 0 *)
+Lemma access_write_only letters acc : access_of_letters letters = Some acc ->
+  write_only acc = (String.eqb (substring 0 1 letters) "d" || String.eqb (substring 0 1 letters) "e") /\ acc <> AUnknown.
+Proof. letters_cases letters ltac:(cbn; intros H; injection H as <-; split; [reflexivity | discriminate]). Qed.
+
+Definition any_cls (cls : string) : Prop := cls = "R" \/ cls = "P" \/ cls = "C" \/ cls = "M" \/ cls = "N".
+Lemma reg_cls_any new cls : reg_cls new cls -> any_cls cls.
+Proof. unfold any_cls. intros [[-> | [-> | [-> | ->]]] | [_ ->]]; auto 6. Qed.
+
+Lemma name_inj cls cls' l l' : any_cls cls -> any_cls cls' -> cls +++ l = cls' +++ l' -> cls = cls' /\ l = l'.
+Proof. intros [-> | [-> | [-> | [-> | ->]]]] [-> | [-> | [-> | [-> | ->]]]]; cbn [append]; intros H; inversion H; auto. Qed.
+
+Definition lsfx_all : list (string * bool) := flat_map (fun l => [(l, true); (l, false)]) letter_table.
+Lemma lsfx_check :
+  forallb (fun a => forallb (fun b => implb (String.eqb (fst a +++ sfx (snd a)) (fst b +++ sfx (snd b)))
+                                            (String.eqb (fst a) (fst b) && Bool.eqb (snd a) (snd b))) lsfx_all) lsfx_all = true.
+Proof. vm_compute. reflexivity. Qed.
+
+Lemma lsfx_inj l l' n n' : In l letter_table -> In l' letter_table -> l +++ sfx n = l' +++ sfx n' -> l = l' /\ n = n'.
+Proof.
+  intros Hl Hl' He.
+  assert (Hin : forall l0 n0, In l0 letter_table -> In (l0, n0) lsfx_all).
+  { intros l0 n0 H0. unfold lsfx_all. apply in_flat_map. exists l0. split; [exact H0|]. destruct n0; cbn; auto. }
+  pose proof lsfx_check as Hc. rewrite forallb_forall in Hc. specialize (Hc _ (Hin l n Hl)).
+  rewrite forallb_forall in Hc. specialize (Hc _ (Hin l' n' Hl')). cbn [fst snd] in Hc.
+  rewrite He, String.eqb_refl in Hc. cbn [implb] in Hc. apply andb_true_iff in Hc. destruct Hc as [H1 H2].
+  apply String.eqb_eq in H1. apply eqb_prop in H2. auto.
+Qed.
+
+Lemma rname_inj cls cls' l l' n n' : any_cls cls -> any_cls cls' -> In l letter_table -> In l' letter_table ->
+  rname cls l n = rname cls' l' n' -> cls = cls' /\ l = l' /\ n = n'.
+Proof.
+  intros Hc Hc' Hl Hl' He. unfold rname in He.
+  destruct (name_inj _ _ _ _ Hc Hc' He) as [-> He']. destruct (lsfx_inj _ _ _ _ Hl Hl' He') as [-> ->]. auto.
+Qed.
+
+(* an entry of the model's register table, as the fragment creates it *)
+Definition entry_ok (n : string) (ri : reginfo) : Prop :=
+  exists cls letters acc new, reg_cls new cls /\ access_of_letters letters = Some acc /\ n = rname cls letters new /\
+    r_op ri = rop cls letters new /\ r_ty ri = ty_int true (dest_w cls acc) /\ r_pc ri = false /\ r_new ri = new /\
+    write_only (r_acc ri) = write_only acc /\ r_acc ri <> AUnknown.
+Definition regs_ok (regs : list (string * reginfo)) : Prop :=
+  forall n ri, lookup_reg_info n regs = Some ri -> entry_ok n ri.
+(* a later table: what finalisation (Lower.reg_read / reg_handle) looks at is unchanged *)
+Definition regs_le (regs regs' : list (string * reginfo)) : Prop :=
+  forall n ri, lookup_reg_info n regs = Some ri ->
+    exists ri', lookup_reg_info n regs' = Some ri' /\ r_op ri' = r_op ri /\ r_pc ri' = r_pc ri /\ r_new ri' = r_new ri /\
+                write_only (r_acc ri') = write_only (r_acc ri).
+
+Lemma regs_le_refl r : regs_le r r.
+Proof. intros n ri H. exists ri. auto. Qed.
+Lemma regs_le_trans a b c : regs_le a b -> regs_le b c -> regs_le a c.
+Proof.
+  intros H1 H2 n ri H. destruct (H1 n ri H) as [ri1 [L1 [O1 [P1 [N1 W1]]]]]. destruct (H2 n ri1 L1) as [ri2 [L2 [O2 [P2 [N2 W2]]]]].
+  exists ri2. split; [exact L2|]. repeat split; congruence.
+Qed.
+Lemma regs_ok_nil : regs_ok [].
+Proof. intros n ri H. discriminate H. Qed.
+
+Lemma lookup_reg_info_app n l k v :
+  lookup_reg_info n (l ++ [(k, v)]) =
+  match lookup_reg_info n l with Some r => Some r | None => if String.eqb k n then Some v else None end.
+Proof.
+  induction l as [|[k0 v0] t IH]; cbn [app lookup_reg_info]; [reflexivity|].
+  destruct (String.eqb k0 n); [reflexivity | exact IH].
+Qed.
+
+Lemma lookup_reg_info_update n name v l :
+  lookup_reg_info n (update_reg_info name v l) =
+  match lookup_reg_info n l with None => None | Some r => if String.eqb name n then Some v else Some r end.
+Proof.
+  induction l as [|[k o] t IH]; cbn [update_reg_info lookup_reg_info]; [reflexivity|].
+  destruct (String.eqb_spec k name) as [->|Hkn]; cbn [lookup_reg_info].
+  - destruct (String.eqb name n); [reflexivity | destruct (lookup_reg_info n t); reflexivity].
+  - destruct (String.eqb_spec k n) as [->|Hk]; [|exact IH].
+    destruct (String.eqb_spec name n) as [->|_]; [congruence | reflexivity].
+Qed.
+
+Definition norem (rem : list string) : Prop := forall n, existsb (String.eqb (reg_prefix +++ n)) rem = false.
+Lemma norem_nil : norem [].
+Proof. intros n. reflexivity. Qed.
+
+(* what the model state may change while a statement or expression of the fragment is lowered: nothing is
+   pending, removed or numbered; the immediate prologue and the register table only grow *)
+Definition st_ext (s s' : lstate) : Prop :=
+  st_pending s' = st_pending s /\ st_hcount s' = st_hcount s /\ incl (st_imms s) (st_imms s') /\
+  st_removed s' = st_removed s /\ (st_nonempty s = true -> st_nonempty s' = true) /\
+  regs_le (st_regs s) (st_regs s').
+Lemma st_ext_refl s : st_ext s s.
+Proof. unfold st_ext. repeat split; auto using incl_refl, regs_le_refl. Qed.
+Lemma st_ext_trans a b c : st_ext a b -> st_ext b c -> st_ext a c.
+Proof.
+  intros [A1 [A2 [A3 [A4 [A5 A6]]]]] [B1 [B2 [B3 [B4 [B5 B6]]]]].
+  repeat split; try congruence; eauto using incl_tran, regs_le_trans.
+Qed.
+
+(* holder.is_empty() is false as soon as anything was registered *)
+Definition started (st : lstate) : Prop := st_nonempty st = true \/ (st_vars st = [] /\ st_regs st = []).
+
+(* reading / naming a register operand: Lower.lower_reg *)
+Lemma lower_reg_ok cls letters acc new st : reg_cls new cls -> access_of_letters letters = Some acc -> regs_ok (st_regs st) ->
+  exists st', lower_reg cls letters new st =
+                OK (mkpv (PRaw ("$reg:" +++ rname cls letters new)) (ty_int true (dest_w cls acc)) (KReg (rname cls letters new)) [], st') /\
+    st_vars st' = st_vars st /\ st_imms st' = st_imms st /\ st_ext st st' /\ regs_ok (st_regs st') /\
+    (started st -> st_nonempty st' = true) /\
+    exists ri, lookup_reg_info (rname cls letters new) (st_regs st') = Some ri.
+Proof.
+  intros Hc Ha Hr. destruct (reg_cls_widths new cls Hc) as [Hrw _].
+  unfold lower_reg. rewrite Ha, Hrw. cbv zeta.
+  change (if is_pair acc then (cls_w cls * 2)%N else cls_w cls) with (dest_w cls acc).
+  change (cls +++ letters +++ (if new then "_new" else "")) with (rname cls letters new).
+  change (if String.eqb cls "N" then RNreg (substring 0 1 letters) else RIsa cls (substring 0 1 letters) new) with (rop cls letters new).
+  unfold add_reg, bind, get.
+  destruct (lookup_reg_info (rname cls letters new) (st_regs st)) as [old|] eqn:El.
+  - exists st. split.
+    { unfold ret, reg_value. destruct (Hr _ _ El) as [cls' [l' [acc' [new' [Hc' [Ha' [Hn [_ [Ht _]]]]]]]]].
+      destruct (rname_inj _ _ _ _ _ _ (reg_cls_any _ _ Hc) (reg_cls_any _ _ Hc') (access_in_table _ _ Ha) (access_in_table _ _ Ha') Hn)
+        as [<- [<- <-]].
+      rewrite Ha in Ha'. injection Ha' as <-. rewrite Ht. reflexivity. }
+    split; [reflexivity|]. split; [reflexivity|]. split; [apply st_ext_refl|]. split; [exact Hr|].
+    split; [|eauto].
+    intros [Hs | [_ Hs]]; [exact Hs|]. rewrite Hs in El. discriminate El.
+  - eexists. split; [reflexivity|]. cbn [st_vars st_regs st_nonempty st_imms].
+    split; [reflexivity|]. split; [reflexivity|].
+    split.
+    { unfold st_ext; cbn [st_pending st_hcount st_imms st_removed st_nonempty st_regs].
+      repeat split; auto using incl_refl. intros n ri H. exists ri. rewrite lookup_reg_info_app, H. auto. }
+    split.
+    { intros n ri. rewrite lookup_reg_info_app. destruct (lookup_reg_info n (st_regs st)) eqn:Eln.
+      - intros H; injection H as <-. exact (Hr _ _ Eln).
+      - destruct (String.eqb_spec (rname cls letters new) n) as [<-|_]; [|discriminate].
+        intros H; injection H as <-. exists cls, letters, acc, new. cbn [r_op r_ty r_pc r_new r_acc].
+        destruct (access_write_only _ _ Ha) as [_ Hu]. auto 12. }
+    split; [reflexivity|].
+    rewrite lookup_reg_info_app, El, String.eqb_refl. eauto.
+Qed.
+
 (* ================================================================== Layer 2: values, and the conversion helpers of the model *)
 Definition cval_of (t : vtype) (v : val) : cval :=
   match v with VB b => (int_t, if b then 1 else 0) | VBv w z => ((vt_sg t, w), z) end.
 Definition shape (t : vtype) (v : val) : Prop :=
   if vt_bool t then exists b, v = VB b else exists z, v = VBv (vt_w t) z /\ 0 <= z < pow2 (vt_w t).
 Definition intkind (k : kind) : Prop :=
-  match k with KVar _ | KExec | KTmp _ false | KLit _ false => True | _ => False end.
+  match k with KVar _ | KReg _ | KExec | KTmp _ false | KLit _ false => True | _ => False end.
 Definition boolkind (k : kind) : Prop :=
   match k with KBoolOp | KLit _ true => True | _ => False end.
 Definition goodpv (p : pval) : Prop :=
@@ -258,15 +504,22 @@ Section Correct.
   Variables (subsigs : list subsig) (macs : list macsig) (cret : option vtype) (hstart : N).
   Local Notation cfg := (mkcfg all_fixes subsigs macs [] cret hstart).
   Variable rw : regwidth.
+  (* the register table and the removed names against which the emitted term is finalised (Lower.fin_pure):
+     register operands are resolved at emission time, from the FINAL access kind of the register *)
+  Variables (R : list (string * reginfo)) (rem : list string).
+  Local Notation fin := (fin_pure R rem).
+  (* the immediates the behaviour uses (any set of letters; [imm_letter] = all the grammar has).  The model
+     keeps immediates and declared locals in one table: no declared local may be named like one of them *)
+  Variable IM : string -> bool.
 
   Definition sem (ms : mstate) (p : pval) (v : val) : Prop :=
-    eval rw ms [] (pv_term p) = Some v /\ shape (pv_ty p) v.
+    eval rw ms [] (fin (pv_term p)) = Some v /\ shape (pv_ty p) v.
 
   Lemma sem_bool ms p v : pv_ty p = ty_bool -> sem ms p v ->
-    exists b, v = VB b /\ eval rw ms [] (pv_term p) = Some (VB b).
+    exists b, v = VB b /\ eval rw ms [] (fin (pv_term p)) = Some (VB b).
   Proof. intros Ht [He Hs]. rewrite Ht in Hs. destruct Hs as [b ->]. eauto. Qed.
   Lemma sem_int ms p v sg w : pv_ty p = ty_int sg w -> sem ms p v ->
-    exists z, v = VBv w z /\ 0 <= z < pow2 w /\ eval rw ms [] (pv_term p) = Some (VBv w z).
+    exists z, v = VBv w z /\ 0 <= z < pow2 w /\ eval rw ms [] (fin (pv_term p)) = Some (VBv w z).
   Proof. intros Ht [He Hs]. rewrite Ht in Hs. destruct Hs as [z [-> Hz]]. eauto. Qed.
 
   Lemma shape_int sg w z : 0 <= z < pow2 w -> shape (ty_int sg w) (VBv w z).
@@ -302,7 +555,7 @@ Section Correct.
       intros ms v Hs. apply sem_bool in Hs; [|reflexivity]. destruct Hs as [b [-> He]]. cbn [pv_term] in He.
       exists (VBv w (if b then wrap w 1 else wrap w 0)). split.
       + split.
-        * cbn [pv_term eval lit_pure]. rewrite He. cbn [sort_of_val sort_eqb]. rewrite N.eqb_refl. destruct b; reflexivity.
+        * cbn [pv_term fin_pure eval lit_pure]. rewrite He. cbn [sort_of_val sort_eqb]. rewrite N.eqb_refl. destruct b; reflexivity.
         * cbn [pv_ty]. apply shape_int. destruct b; apply wrap_range.
       + cbn [pv_ty cval_of ty_int vt_sg]. unfold conv, mkval, vint, int_t, interp. cbn [fst snd].
         destruct b; f_equal.
@@ -325,11 +578,11 @@ Section Correct.
         exists (VBv w (wrap w (interp (sg0, w0) z))). split.
         * split; [|cbn [pv_ty]; apply shape_int; apply wrap_range].
           cbn [pv_term]. destruct (w0 <? w)%N eqn:Elt.
-          -- cbn [eval]. destruct sg0.
-             ++ cbn [eval]. rewrite He. f_equal. f_equal. apply (cast_widen w0 w true z); auto.
-             ++ cbn [eval]. rewrite He. f_equal. f_equal. apply (cast_widen w0 w false z); auto.
-          -- unfold cast_il_exec. cbn [vt_w vt_sg ty_int eval].
-             destruct (sg && sg0); cbn [eval]; rewrite He; f_equal; f_equal; apply cast_narrow; auto; lia.
+          -- cbn [fin_pure eval]. destruct sg0.
+             ++ cbn [fin_pure eval]. rewrite He. f_equal. f_equal. apply (cast_widen w0 w true z); auto.
+             ++ cbn [fin_pure eval]. rewrite He. f_equal. f_equal. apply (cast_widen w0 w false z); auto.
+          -- unfold cast_il_exec. cbn [vt_w vt_sg ty_int fin_pure eval].
+             destruct (sg && sg0); cbn [fin_pure eval]; rewrite He; f_equal; f_equal; apply cast_narrow; auto; lia.
         * cbn [pv_ty cval_of ty_int vt_sg]. reflexivity.
   Qed.
 
@@ -534,7 +787,7 @@ Section Correct.
     destruct (sem_int _ _ _ _ _ Ta' Sa') as [x [-> [Hx Ex]]]. destruct (sem_int _ _ _ _ _ Tc' Sc') as [y [-> [Hy Ey]]].
     exists (VBv (snd t) (wrap (snd t) (arith_fun b x y))). split.
     - split.
-      + cbn [pv_term eval]. unfold rd. rewrite Ex, Ey. rewrite N.eqb_refl.
+      + cbn [pv_term fin_pure eval]. unfold rd. rewrite Ex, Ey. rewrite N.eqb_refl.
         destruct Hb as [-> | [-> | ->]]; cbn; reflexivity.
       + cbn [pv_ty]. rewrite Ta'. apply shape_int. apply wrap_range.
     - cbn [pv_ty]. rewrite Ta' in *. rewrite Tc' in *. cbn [cval_of vt_sg ty_int] in *.
@@ -587,7 +840,7 @@ Section Correct.
     destruct (sem_int _ _ _ _ _ Ta' Sa') as [x [-> [Hx Ex]]]. destruct (sem_int _ _ _ _ _ Tc' Sc') as [y [-> [Hy Ey]]].
     exists (VBv (snd t) (bit_fun b x y)). split.
     - split.
-      + cbn [pv_term eval]. unfold rd. rewrite Ex, Ey. rewrite N.eqb_refl.
+      + cbn [pv_term fin_pure eval]. unfold rd. rewrite Ex, Ey. rewrite N.eqb_refl.
         destruct Hb as [-> | [-> | ->]]; cbn; reflexivity.
       + cbn [pv_ty]. rewrite Ta'. apply shape_int. apply bit_fun_range; auto.
     - cbn [pv_ty]. rewrite Ta' in *. rewrite Tc' in *. cbn [cval_of vt_sg ty_int] in *.
@@ -644,7 +897,7 @@ Section Correct.
       destruct t as [sg w] eqn:Et. cbn [fst snd] in *.
       assert (Hu : forall z, 0 <= z < pow2 w -> interp (false, w) z = z) by (intros; apply interp_unsigned; auto).
       destruct Hb as [-> | [-> | [-> | [-> | [-> | ->]]]]]; cbn [String.eqb Ascii.eqb Bool.eqb cmp_fun];
-      destruct sg; cbn [orb eval]; rewrite Ex, Ey, N.eqb_refl; cbn [cmp_sem interp fst snd negb];
+      destruct sg; cbn [orb fin_pure eval]; rewrite Ex, Ey, N.eqb_refl; cbn [cmp_sem interp fst snd negb];
       rewrite ?Z.gtb_ltb, ?Z.geb_leb; try reflexivity;
       try (change (sval w x) with (interp (true, w) x); change (sval w y) with (interp (true, w) y); rewrite interp_eqb by auto; reflexivity);
       try (change (wrap w x) with (interp (false, w) x); change (wrap w y) with (interp (false, w) y); rewrite !Hu by auto; reflexivity).
@@ -704,7 +957,7 @@ Section Correct.
         + intros Hn. apply shr_ok; auto. }
     exists (VBv (snd t) res). split.
     - split.
-      + cbn [pv_term eval]. unfold rd. rewrite Ex, Ey. fold o. rewrite Ho. cbn [orb]. rewrite Hres. reflexivity.
+      + cbn [pv_term fin_pure eval]. unfold rd. rewrite Ex, Ey. fold o. rewrite Ho. cbn [orb]. rewrite Hres. reflexivity.
       + cbn [pv_ty]. rewrite A3. apply shape_int. auto.
     - intros cv Hcv. cbn [pv_ty]. rewrite A3 in *. rewrite C3 in *. cbn [cval_of vt_sg ty_int] in *.
       pose proof (wfc_cval_of a va Hga (proj2 Sa)) as Wa. pose proof (wfc_cval_of c vc Hgc (proj2 Sc)) as Wc.
@@ -733,13 +986,13 @@ Section Correct.
   Qed.
 
   Lemma cond_ok p ms v : goodpv p -> sem ms p v ->
-    eval rw ms [] (cond_of cfg p) = Some (VB (truth (cval_of (pv_ty p) v))).
+    eval rw ms [] (fin (cond_of cfg p)) = Some (VB (truth (cval_of (pv_ty p) v))).
   Proof.
     intros Hg Hs. unfold cond_of. rewrite is_boolop_good by auto.
     destruct Hg as [[Ht Hk] | [sg [w [_ [Ht Hk]]]]].
     - destruct (sem_bool _ _ _ Ht Hs) as [b [-> He]]. rewrite Ht. cbn [vt_bool ty_bool cond_wrap]. unfold rd. rewrite He.
       destruct b; reflexivity.
-    - destruct (sem_int _ _ _ _ _ Ht Hs) as [z [-> [Hz He]]]. rewrite Ht. cbn [vt_bool ty_int cond_wrap eval]. unfold rd. rewrite He.
+    - destruct (sem_int _ _ _ _ _ Ht Hs) as [z [-> [Hz He]]]. rewrite Ht. cbn [vt_bool ty_int cond_wrap fin_pure eval]. unfold rd. rewrite He.
       reflexivity.
   Qed.
 
@@ -761,7 +1014,7 @@ Section Correct.
     intros ms va vc Sa Sc. split; [|apply shape_bool].
     pose proof (cond_ok a ms va Hga Sa) as Ea. pose proof (cond_ok c ms vc Hgc Sc) as Ec. unfold cond_of in Ea, Ec.
     cbn [pv_term]. unfold boolop_il_exec.
-    destruct Hb as [-> | ->]; cbn [String.eqb Ascii.eqb Bool.eqb eval]; rewrite Ea, Ec; reflexivity.
+    destruct Hb as [-> | ->]; cbn [String.eqb Ascii.eqb Bool.eqb fin_pure eval]; rewrite Ea, Ec; reflexivity.
   Qed.
 
 
@@ -789,7 +1042,7 @@ Section Correct.
     destruct (sem_int _ _ _ _ _ A3 Sa') as [x [-> [Hx Ex]]].
     exists (VBv (snd t) (match u with UNot => wrap (snd t) (- x - 1) | _ => wrap (snd t) (- x) end)). split.
     - split.
-      + cbn [pv_term eval]. unfold rd. rewrite Ex. destruct Hu as [-> | ->]; reflexivity.
+      + cbn [pv_term fin_pure eval]. unfold rd. rewrite Ex. destruct Hu as [-> | ->]; reflexivity.
       + cbn [pv_ty]. rewrite A3. apply shape_int. destruct u; apply wrap_range.
     - cbn [pv_ty]. rewrite A3 in *. cbn [cval_of vt_sg ty_int] in *.
       assert (Hfa : fst (cval_of (pv_ty a) va) = cty_of (pv_ty a)) by (apply fst_cval_of; apply Sa).
@@ -811,7 +1064,7 @@ Section Correct.
     split. { cbn. auto. }
     intros ms va Sa. exists (VB (negb (truth (cval_of (pv_ty a) va)))). split.
     - split; [|apply shape_bool]. pose proof (cond_ok a ms va Hga Sa) as Ea. unfold cond_of in Ea.
-      cbn [pv_term]. unfold boolop_il_exec. cbn [String.eqb Ascii.eqb Bool.eqb eval]. rewrite Ea. reflexivity.
+      cbn [pv_term]. unfold boolop_il_exec. cbn [String.eqb Ascii.eqb Bool.eqb fin_pure eval]. rewrite Ea. reflexivity.
     - cbn [c_unop pv_ty cval_of]. unfold truth. destruct (snd (cval_of (pv_ty a) va) =? 0); reflexivity.
   Qed.
 
@@ -852,9 +1105,9 @@ Section Correct.
   Proof.
     intros Hli Hk. destruct (Hli v b Hk) as [[_ [sg [w [Hw [Ht [Htm Hn]]]]]] | [_ [Ht [bb [Htm ->]]]]]; rewrite Ht.
     - unfold cty_of. cbn [vt_bool ty_int vt_sg vt_w fst snd]. split; [exact Hw|]. split; [apply promoted_or_self_wide; auto|].
-      split; [exact Hn|]. intros ms ilv [He _]. rewrite Htm in He. cbn [eval] in He. injection He as <-. reflexivity.
+      split; [exact Hn|]. intros ms ilv [He _]. rewrite Htm in He. cbn [fin_pure eval] in He. injection He as <-. reflexivity.
     - unfold cty_of. cbn [vt_bool ty_bool int_t fst snd]. split; [auto|]. split; [reflexivity|].
-      split; [destruct bb; reflexivity|]. intros ms ilv [He _]. rewrite Htm in He. cbn [eval] in He. injection He as <-.
+      split; [destruct bb; reflexivity|]. intros ms ilv [He _]. rewrite Htm in He. cbn [fin_pure eval] in He. injection He as <-.
       destruct bb; reflexivity.
   Qed.
 
@@ -1068,7 +1321,7 @@ Section Correct.
     pose proof (cond_ok pc ms vc Hgc Sc) as Ec.
     exists (VBv (snd t) (if truth (cval_of (pv_ty pc) vc) then x else y)). split.
     - split.
-      + cbn [pv_term eval]. unfold rd. rewrite Ec, Ex, Ey. cbn [sort_of_val sort_eqb]. rewrite N.eqb_refl.
+      + cbn [pv_term fin_pure eval]. unfold rd. rewrite Ec, Ex, Ey. cbn [sort_of_val sort_eqb]. rewrite N.eqb_refl.
         destruct (truth (cval_of (pv_ty pc) vc)); reflexivity.
       + cbn [pv_ty]. rewrite Ta'. apply shape_int. destruct (truth (cval_of (pv_ty pc) vc)); auto.
     - cbn [pv_ty]. rewrite Ta' in *. rewrite Tc' in *. cbn [cval_of vt_sg ty_int] in *.
@@ -1101,40 +1354,87 @@ Section Correct.
   Definition is_plain_op (b : Ast.binop) : Prop :=
     b = Ast.BAnd \/ b = Ast.BOr \/ b = Ast.BXor \/ b = Ast.BShl \/ b = Ast.BShr \/ b = Ast.BLAnd \/ b = Ast.BLOr.
 
+  (* V = the DECLARED LOCALS of the model state (immediates, which the model keeps in the same table, are
+     tracked by [lst_ok]); IM = the letters of the immediates the behaviour uses.  Register operands: the machine must give the operand handle the width the
+     shortcode convention gives the operand (RsV and RssV share the handle ISA2REG(hi,'s'): an instruction
+     uses one of them). *)
   Inductive pfrag (V : list (string * option vtype)) : cexpr -> Prop :=
   | pf_ident x sg w : lookup x V = Some (Some (ty_int sg w)) -> okw w -> pfrag V (EOp (OIdent x))
   | pf_num v hex suf t : 0 <= v -> literal_type v hex suf = Some t -> pfrag V (EOp (ONum v hex suf))
+  | pf_reg cls letters acc :                 (* RsV RtV .. RxV .. RssV .. PuV CsV MuV; also RdV / RddV read back *)
+      dest_cls cls -> access_of_letters letters = Some acc ->
+      rw (RIsa cls (substring 0 1 letters) false) = dest_w cls acc -> pfrag V (EOp (OReg cls letters))
+  | pf_newreg cls letters acc :              (* PuN NsN ... *)
+      reg_cls true cls -> access_of_letters letters = Some acc ->
+      rw (rop cls letters true) = dest_w cls acc -> pfrag V (EOp (ONewReg cls letters))
+  | pf_imm l : IM l = true -> pfrag V (EOp (OImm l))      (* siV uiV riV ... *)
   | pf_cast ts sg w e : cast_ty ts sg w -> pfrag V e -> pfrag V (ECast ts e)
   | pf_un u e : (u = UNot \/ u = UMinus \/ u = ULNot) -> pfrag V e -> pfrag V (EUn u e)
   | pf_bin b l r : is_folding_op b \/ is_plain_op b -> pfrag V l -> pfrag V r -> pfrag V (EBin b l r)
   | pf_cond c t f : pfrag V c -> pfrag V t -> pfrag V f -> litlike c = false -> pfrag V (ECond c t f).
 
+  (* the state relation: every declared integer local holds the same in-range value on both sides; the
+     registers written so far are the same list; the operand environment of the C side (old register file,
+     new-value bank of the producers, immediates) is the one of the IL machine; no immediate was assigned *)
   Definition rel (V : list (string * option vtype)) (cs : cstate) (ms : mstate) : Prop :=
-    forall x sg w, lookup x V = Some (Some (ty_int sg w)) -> okw w ->
+    (forall x sg w, lookup x V = Some (Some (ty_int sg w)) -> okw w ->
       exists v, lookup x (cs_vars cs) = Some ((sg, w), Some v) /\ 0 <= v < pow2 w /\
-                lookup x (locals ms) = Some (VBv w v).
+                lookup x (locals ms) = Some (VBv w v)) /\
+    cs_regw cs = rnew ms /\
+    (forall r, ce_rold E r = rold ms r) /\ (forall r, ce_rnew0 E r = rnew0 ms r) /\
+    (forall l, ce_imms E l = imms ms l) /\
+    (forall l, IM l = true -> lookup ("imm:" +++ l) (cs_vars cs) = None).
 
-  (* the model state changes at most in the `nonempty` flag *)
-  Definition st_same (s s' : lstate) : Prop :=
-    st_vars s' = st_vars s /\ st_regs s' = st_regs s /\ st_pending s' = st_pending s /\ st_hcount s' = st_hcount s /\
-    st_imms s' = st_imms s /\ st_removed s' = st_removed s /\ (st_nonempty s = true -> st_nonempty s' = true).
-  Lemma st_same_refl s : st_same s s. Proof. unfold st_same; tauto. Qed.
-  Lemma st_same_trans a b c : st_same a b -> st_same b c -> st_same a c.
-  Proof. unfold st_same. intuition congruence. Qed.
+  (* the immediate prologue J (a list of effects SETL(l, ISA2IMM l), Lower.st_imms) has been executed *)
+  Definition imms_done (J : list effect) (ms : mstate) : Prop :=
+    forall l, IM l = true -> In (imm_entry l) J -> lookup l (locals ms) = Some (VBv 32 (wrap 32 (imms ms l))).
+  Lemma imms_done_incl A B ms : incl A B -> imms_done B ms -> imms_done A ms.
+  Proof. intros Hi H l Hl Hin. apply H; auto. Qed.
+
+  (* the model states the fragment reaches, V being the declared locals: the variable table is V plus the
+     immediates read so far, each with its prologue entry; the register table was built by the fragment *)
+  Definition lst_ok (V : list (string * option vtype)) (st : lstate) : Prop :=
+    (forall x, IM x = false -> lookup x (st_vars st) = lookup x V) /\
+    (forall l, IM l = true -> lookup l V = None) /\
+    (forall l, IM l = true ->
+       lookup l (st_vars st) = None \/ (lookup l (st_vars st) = Some (Some (imm_ty l)) /\ In (imm_entry l) (st_imms st))) /\
+    Forall (fun e => exists l, IM l = true /\ e = imm_entry l /\ lookup l (st_vars st) = Some (Some (imm_ty l))) (st_imms st) /\
+    regs_ok (st_regs st).
+
+  Lemma lst_ok_regs V st st' : lst_ok V st -> st_vars st' = st_vars st -> st_imms st' = st_imms st ->
+    regs_ok (st_regs st') -> lst_ok V st'.
+  Proof. intros [H1 [H2 [H3 [H4 _]]]] Hv Hi Hr. unfold lst_ok. rewrite Hv, Hi. auto. Qed.
+
+  Lemma lst_ok_local V st x t : lst_ok V st -> lookup x V = Some t ->
+    IM x = false /\ lookup x (st_vars st) = Some t.
+  Proof.
+    intros [H1 [H2 _]] Hx. destruct (IM x) eqn:Ei; [rewrite (H2 x Ei) in Hx; discriminate Hx|].
+    split; [reflexivity|]. rewrite (H1 x Ei). exact Hx.
+  Qed.
 
   (* CSem's ?: yields the UNCONVERTED arm when exactly one arm has no value (see the report and
      [cond_mixed_counterexample]); the theorem is stated for evaluations in which the two arms of every
      conditional are equi-defined *)
   Definition arms_ok (fuel : nat) (cs : cstate) (e : cexpr) : Prop := True.
 
+  (* the semantic half of the invariant: for the term finalised against any later register table R *)
+  Definition semok (V : list (string * option vtype)) (e : cexpr) (pv : pval) (st' : lstate) : Prop :=
+    regs_le (st_regs st') R -> norem rem ->
+    forall cs ms, rel V cs ms -> imms_done (st_imms st') ms ->
+      exists ilv, sem ms pv ilv /\
+        forall fuel cs' cv, ceval E csub xi fuel cs e = Some (cs', cv) -> arms_ok fuel cs e ->
+          cs' = cs /\ cv = cval_of (pv_ty pv) ilv.
+
+  Lemma semok_mono V e pv st1 st2 : st_ext st1 st2 -> semok V e pv st1 -> semok V e pv st2.
+  Proof.
+    intros [_ [_ [Hi [_ [_ Hr]]]]] H HR Hrem cs ms Hrel Himm.
+    apply H; [eapply regs_le_trans; eassumption | exact Hrem | exact Hrel | eapply imms_done_incl; eassumption].
+  Qed.
+
   Definition Inv (V : list (string * option vtype)) (e : cexpr) : Prop :=
-    forall st, st_vars st = V ->
-      exists pv st', lower_expr cfg e st = OK (IPure pv, st') /\ st_same st st' /\
-        goodpv pv /\ litinv pv /\ (islit pv -> litlike e = true) /\
-        forall cs ms, rel V cs ms ->
-          exists ilv, sem ms pv ilv /\
-            forall fuel cs' cv, ceval E csub xi fuel cs e = Some (cs', cv) -> arms_ok fuel cs e ->
-              cs' = cs /\ cv = cval_of (pv_ty pv) ilv.
+    forall st, lst_ok V st ->
+      exists pv st', lower_expr cfg e st = OK (IPure pv, st') /\ st_ext st st' /\ lst_ok V st' /\
+        goodpv pv /\ litinv pv /\ (islit pv -> litlike e = true) /\ semok V e pv st'.
 
   Lemma nolit_litinv p : ~ islit p -> litinv p.
   Proof. intros H v b Hk. exfalso. apply H. unfold islit. rewrite Hk. exact I. Qed.
@@ -1144,17 +1444,18 @@ Section Correct.
 
   Lemma inv_ident V x sg w : lookup x V = Some (Some (ty_int sg w)) -> okw w -> Inv V (EOp (OIdent x)).
   Proof.
-    intros Hl Hw st HV.
+    intros Hl Hw st Hok. destruct (lst_ok_local V st x _ Hok Hl) as [_ Hls].
     eexists (mkpv (PVarL x) (ty_int sg w) (if String.eqb (substring 0 5 x) "h_tmp" then KTmp x false else KVar x) []), st.
-    split. { cbn [lower_expr lower_operand cfg_params lookup]. unfold bind, get. rewrite HV, Hl. reflexivity. }
-    split. { apply st_same_refl. }
+    split. { cbn [lower_expr lower_operand cfg_params lookup]. unfold bind, get. rewrite Hls. reflexivity. }
+    split. { apply st_ext_refl. }
+    split. { exact Hok. }
     assert (Hik : intkind (if String.eqb (substring 0 5 x) "h_tmp" then KTmp x false else KVar x)) by (destruct (String.eqb _ _); exact I).
     assert (Hnl : ~ islit (mkpv (PVarL x) (ty_int sg w) (if String.eqb (substring 0 5 x) "h_tmp" then KTmp x false else KVar x) [])).
     { unfold islit. cbn. destruct (String.eqb _ _); auto. }
     split. { right. exists sg, w. cbn. auto. }
     split. { apply nolit_litinv. auto. }
     split. { intros H. contradiction. }
-    intros cs ms Hrel. destruct (Hrel x sg w Hl Hw) as [v [Hc [Hv Hm]]].
+    intros _ _ cs ms Hrel _. destruct (proj1 Hrel x sg w Hl Hw) as [v [Hc [Hv Hm]]].
     exists (VBv w v). split.
     - split; [exact Hm | apply shape_int; auto].
     - intros fuel cs' cv Hce _. destruct fuel as [|k]; [discriminate|].
@@ -1170,38 +1471,208 @@ Section Correct.
 
   Lemma inv_num V v hex suf t : 0 <= v -> literal_type v hex suf = Some t -> Inv V (EOp (ONum v hex suf)).
   Proof.
-    intros Hv Hl st HV. destruct (literal_type_cases _ _ _ _ Hl) as [Hw Hfit]. destruct t as [sg w]. cbn [fst snd] in *.
+    intros Hv Hl st Hok. destruct (literal_type_cases _ _ _ _ Hl) as [Hw Hfit]. destruct t as [sg w]. cbn [fst snd] in *.
     assert (Hokw : okw w) by (destruct Hw as [-> | ->]; auto).
     exists (mkpv (PBv sg w v) (ty_int sg w) (KLit v false) []).
     eexists.
     split. { cbn [lower_expr lower_operand fx cfg_fx fx_literals all_fixes]. rewrite literal_vtype_eq, Hl. cbn [option_map fst snd]. reflexivity. }
-    split. { unfold st_same. cbn. tauto. }
+    split. { unfold st_ext. cbn. repeat split; auto using incl_refl, regs_le_refl. }
+    split. { eapply lst_ok_regs; [exact Hok | reflexivity | reflexivity | apply Hok]. }
     split. { right. exists sg, w. cbn. auto. }
     split. { intros v0 b0 Hk. cbn in Hk. injection Hk as <- <-. left. split; [reflexivity|]. exists sg, w. cbn.
              repeat split; auto. apply norm_lit_fits; auto. }
     split. { reflexivity. }
-    intros cs ms _. exists (VBv w (wrap w v)). split.
+    intros _ _ cs ms _ _. exists (VBv w (wrap w v)). split.
     - split; [reflexivity | apply shape_int; apply wrap_range].
     - intros fuel cs' cv Hce _. destruct fuel as [|k]; [discriminate|].
       cbn [ceval] in Hce. rewrite Hl in Hce. injection Hce as <- <-. auto.
   Qed.
 
+  (* ------------------------------------------------------------------ register operands *)
+  (* what finalisation makes of a read: destination-only operands read the NEW bank, .new operands too,
+     everything else READ_REG(op, false) *)
+  Lemma fin_reg_read regs cls letters acc new ri : reg_cls new cls -> access_of_letters letters = Some acc ->
+    regs_ok regs -> lookup_reg_info (rname cls letters new) regs = Some ri -> regs_le regs R -> norem rem ->
+    fin (PRaw ("$reg:" +++ rname cls letters new)) = PReg (rop cls letters new) (write_only acc || new).
+  Proof.
+    intros Hc Ha Hr Hl Hle Hrem. cbn [fin_pure]. rewrite reg_name_of_reg. unfold reg_read.
+    destruct (Hle _ _ Hl) as [ri' [L' [O' [P' [N' W']]]]]. rewrite L', Hrem.
+    destruct (Hr _ _ Hl) as [cls' [l' [acc' [new' [Hc' [Ha' [Hn [Ho [_ [Hp [Hnw [Hw _]]]]]]]]]]]].
+    destruct (rname_inj _ _ _ _ _ _ (reg_cls_any _ _ Hc) (reg_cls_any _ _ Hc') (access_in_table _ _ Ha) (access_in_table _ _ Ha') Hn)
+      as [<- [<- <-]].
+    rewrite Ha in Ha'. injection Ha' as <-.
+    rewrite W', Hw, P', Hp, O', Ho, N', Hnw. destruct (write_only acc); reflexivity.
+  Qed.
+
+  Lemma read_reg_src ms cls letters acc : access_of_letters letters = Some acc ->
+    read_reg rw ms (RIsa cls (substring 0 1 letters) false) (write_only acc) =
+    VBv (rw (RIsa cls (substring 0 1 letters) false))
+        (wrap (rw (RIsa cls (substring 0 1 letters) false))
+              (match lookup_reg (RIsa cls (substring 0 1 letters) false) (rnew ms) with
+               | Some v => v
+               | None => if write_only acc then 0 else rold ms (RIsa cls (substring 0 1 letters) false) end)).
+  Proof.
+    intros Ha. unfold read_reg. cbn [regop_is_new regop_dest_only].
+    rewrite <- (proj1 (access_write_only _ _ Ha)). destruct (write_only acc); reflexivity.
+  Qed.
+
+  Lemma read_reg_new ms cls letters :
+    read_reg rw ms (rop cls letters true) true =
+    VBv (rw (rop cls letters true))
+        (wrap (rw (rop cls letters true))
+              (match lookup_reg (rop cls letters true) (rnew ms) with
+               | Some v => v
+               | None => rnew0 ms (rop cls letters true) end)).
+  Proof. unfold read_reg, rop. destruct (String.eqb cls "N"); reflexivity. Qed.
+
+  Lemma ceval_reg k cs cls letters acc : dest_cls cls -> access_of_letters letters = Some acc ->
+    ceval E csub xi (S k) cs (EOp (OReg cls letters)) =
+    Some (cs, mkval (true, dest_w cls acc)
+                (match lookup_reg (RIsa cls (substring 0 1 letters) false) (cs_regw cs) with
+                 | Some v => v
+                 | None => if write_only acc then 0 else ce_rold E (RIsa cls (substring 0 1 letters) false) end)).
+  Proof.
+    intros Hc Ha. cbn [ceval operand_lval]. rewrite (proj1 (proj2 (dest_cls_widths cls Hc))).
+    rewrite <- (access_pair _ _ Ha). change (if is_pair acc then (cls_w cls * 2)%N else cls_w cls) with (dest_w cls acc).
+    cbn [existsb read_lval]. rewrite orb_false_r. rewrite <- (proj1 (access_write_only _ _ Ha)).
+    destruct (lookup_reg _ (cs_regw cs)); [reflexivity|]. destruct (write_only acc); reflexivity.
+  Qed.
+
+  Lemma ceval_newreg k cs cls letters acc : reg_cls true cls -> access_of_letters letters = Some acc ->
+    ceval E csub xi (S k) cs (EOp (ONewReg cls letters)) =
+    Some (cs, mkval (true, dest_w cls acc)
+                (match lookup_reg (rop cls letters true) (cs_regw cs) with
+                 | Some v => v
+                 | None => ce_rnew0 E (rop cls letters true) end)).
+  Proof.
+    intros Hc Ha. cbn [ceval operand_lval]. rewrite (proj2 (reg_cls_widths _ cls Hc)).
+    rewrite <- (access_pair _ _ Ha). change (if is_pair acc then (cls_w cls * 2)%N else cls_w cls) with (dest_w cls acc).
+    change (if String.eqb cls "N" then RNreg (substring 0 1 letters) else RIsa cls (substring 0 1 letters) true) with (rop cls letters true).
+    cbn [read_lval]. destruct (lookup_reg _ (cs_regw cs)); reflexivity.
+  Qed.
+
+  (* both kinds of register operand: the lowering half *)
+  Lemma inv_reg_low V cls letters acc new st : reg_cls new cls -> access_of_letters letters = Some acc -> lst_ok V st ->
+    exists st', lower_reg cls letters new st =
+                  OK (mkpv (PRaw ("$reg:" +++ rname cls letters new)) (ty_int true (dest_w cls acc)) (KReg (rname cls letters new)) [], st') /\
+      st_ext st st' /\ lst_ok V st' /\
+      forall ms, regs_le (st_regs st') R -> norem rem ->
+        eval rw ms [] (fin (PRaw ("$reg:" +++ rname cls letters new))) = Some (read_reg rw ms (rop cls letters new) (write_only acc || new)).
+  Proof.
+    intros Hc Ha Hok.
+    destruct (lower_reg_ok cls letters acc new st Hc Ha (proj2 (proj2 (proj2 (proj2 Hok))))) as [st' [L [Hv [Hi [Hx [Hr [_ [ri Hl]]]]]]]].
+    exists st'. split; [exact L|]. split; [exact Hx|]. split; [eapply lst_ok_regs; eassumption|].
+    intros ms HR Hrem. rewrite (fin_reg_read (st_regs st') cls letters acc new ri Hc Ha Hr Hl HR Hrem). reflexivity.
+  Qed.
+
+  Lemma goodpv_reg n w : okw w -> forall tm, goodpv (mkpv tm (ty_int true w) (KReg n) []).
+  Proof. intros Hw tm. right. exists true, w. cbn. auto. Qed.
+  Lemma nolit_reg n w tm : ~ islit (mkpv tm (ty_int true w) (KReg n) []).
+  Proof. unfold islit. cbn. auto. Qed.
+
+  Lemma inv_reg V cls letters acc : dest_cls cls -> access_of_letters letters = Some acc ->
+    rw (RIsa cls (substring 0 1 letters) false) = dest_w cls acc -> Inv V (EOp (OReg cls letters)).
+  Proof.
+    intros Hc Ha Hrw st Hok.
+    destruct (inv_reg_low V cls letters acc false st (or_introl Hc) Ha Hok) as [st' [L [Hx [Hok' Hev]]]].
+    eexists _, st'.
+    split. { cbn [lower_expr lower_operand]. unfold bind. rewrite L. reflexivity. }
+    split; [exact Hx|]. split; [exact Hok'|].
+    split; [apply goodpv_reg; apply dest_w_okw; exact Hc|]. split; [apply nolit_litinv; apply nolit_reg|].
+    split; [intros H; exfalso; exact (nolit_reg _ _ _ H)|].
+    intros HR Hrem cs ms Hrel _. destruct Hrel as [_ [Hregw [Hrold _]]].
+    specialize (Hev ms HR Hrem). rewrite orb_false_r, (rop_dest cls letters false Hc), (read_reg_src ms cls letters acc Ha), Hrw in Hev.
+    eexists. split.
+    - split; [exact Hev|]. cbn [pv_ty]. apply shape_int. apply wrap_range.
+    - intros fuel cs' cv Hce _. destruct fuel as [|k]; [discriminate|].
+      rewrite (ceval_reg k cs cls letters acc Hc Ha) in Hce. injection Hce as <- <-. split; [reflexivity|].
+      cbn [pv_ty cval_of vt_sg ty_int]. unfold mkval. cbn [snd]. rewrite Hregw, Hrold. reflexivity.
+  Qed.
+
+  Lemma inv_newreg V cls letters acc : reg_cls true cls -> access_of_letters letters = Some acc ->
+    rw (rop cls letters true) = dest_w cls acc -> Inv V (EOp (ONewReg cls letters)).
+  Proof.
+    intros Hc Ha Hrw st Hok.
+    destruct (inv_reg_low V cls letters acc true st Hc Ha Hok) as [st' [L [Hx [Hok' Hev]]]].
+    eexists _, st'.
+    split. { cbn [lower_expr lower_operand]. unfold bind. rewrite L. reflexivity. }
+    split; [exact Hx|]. split; [exact Hok'|].
+    split; [apply goodpv_reg; eapply reg_w_okw; exact Hc|]. split; [apply nolit_litinv; apply nolit_reg|].
+    split; [intros H; exfalso; exact (nolit_reg _ _ _ H)|].
+    intros HR Hrem cs ms Hrel _. destruct Hrel as [_ [Hregw [_ [Hrnew0 _]]]].
+    specialize (Hev ms HR Hrem). rewrite orb_true_r, (read_reg_new ms cls letters), Hrw in Hev.
+    eexists. split.
+    - split; [exact Hev|]. cbn [pv_ty]. apply shape_int. apply wrap_range.
+    - intros fuel cs' cv Hce _. destruct fuel as [|k]; [discriminate|].
+      rewrite (ceval_newreg k cs cls letters acc Hc Ha) in Hce. injection Hce as <- <-. split; [reflexivity|].
+      cbn [pv_ty cval_of vt_sg ty_int]. unfold mkval. cbn [snd]. rewrite Hregw, Hrnew0. reflexivity.
+  Qed.
+
+  (* ------------------------------------------------------------------ immediates *)
+  Lemma lookup_snoc_other {A} x y (v : A) l : String.eqb x y = false -> lookup x (l ++ [(y, v)]) = lookup x l.
+  Proof. intros H. rewrite lookup_app. cbn [lookup]. rewrite H. destruct (lookup x l); reflexivity. Qed.
+  Lemma lookup_snoc_some {A} x y (v w : A) l : lookup x l = Some w -> lookup x (l ++ [(y, v)]) = Some w.
+  Proof. intros H. rewrite lookup_app, H. reflexivity. Qed.
+
+  Lemma inv_imm V l : IM l = true -> Inv V (EOp (OImm l)).
+  Proof.
+    intros Hl st Hok. pose proof Hok as [H1 [H2 [H3 [H4 H5]]]].
+    assert (Hg : goodpv (mkpv (PVarL l) (imm_ty l) (KVar l) [])).
+    { right. exists (imm_signed l), 32%N. cbn. auto. }
+    assert (Hnl : ~ islit (mkpv (PVarL l) (imm_ty l) (KVar l) [])) by (unfold islit; cbn; auto).
+    assert (Hsem : forall st', In (imm_entry l) (st_imms st') -> semok V (EOp (OImm l)) (mkpv (PVarL l) (imm_ty l) (KVar l) []) st').
+    { intros st' Hin _ _ cs ms Hrel Himm. destruct Hrel as [_ [_ [_ [_ [Himms Hcn]]]]].
+      exists (VBv 32 (wrap 32 (imms ms l))). split.
+      - split; [exact (Himm l Hl Hin) | apply shape_int; apply wrap_range].
+      - intros fuel cs' cv Hce _. destruct fuel as [|k]; [discriminate|].
+        cbn [ceval operand_lval read_lval] in Hce. change ("imm:" ++ l)%string with ("imm:" +++ l) in Hce.
+        rewrite (Hcn l Hl) in Hce. injection Hce as <- <-. split; [reflexivity|].
+        cbn [pv_ty cval_of imm_ty vt_sg ty_int]. unfold mkval, imm_signed. cbn [snd]. rewrite Himms. reflexivity. }
+    destruct (H3 l Hl) as [Hn | [Hs Hin]].
+    - (* first read: the immediate is declared and its prologue entry created *)
+      eexists (mkpv (PVarL l) (imm_ty l) (KVar l) []), _.
+      split. { cbn [lower_expr lower_operand]. unfold bind, get. rewrite Hn. unfold put, ret. reflexivity. }
+      split. { unfold st_ext. cbn [st_pending st_hcount st_imms st_removed st_nonempty st_regs].
+               repeat split; auto using regs_le_refl. apply incl_appl, incl_refl. }
+      split.
+      { unfold lst_ok. cbn [st_vars st_imms st_regs]. split; [|split; [exact H2|split; [|split; [|exact H5]]]].
+        - intros x Hx. rewrite lookup_snoc_other; [apply H1; exact Hx|].
+          destruct (String.eqb_spec x l) as [->|_]; [congruence | reflexivity].
+        - intros l' Hl'. destruct (String.eqb_spec l' l) as [->|Hne].
+          + right. split; [rewrite lookup_app, Hn; cbn [lookup]; rewrite String.eqb_refl; reflexivity | apply in_or_app; right; left; reflexivity].
+          + rewrite lookup_snoc_other by (apply String.eqb_neq; exact Hne).
+            destruct (H3 l' Hl') as [? | [? ?]]; [left; assumption | right; split; [assumption | apply in_or_app; left; assumption]].
+        - apply Forall_app. split.
+          + eapply Forall_impl; [|exact H4]. intros e [l' [A [B C]]]. exists l'. split; [exact A|]. split; [exact B|].
+            apply lookup_snoc_some. exact C.
+          + constructor; [|constructor]. exists l. split; [exact Hl|]. split; [reflexivity|].
+            rewrite lookup_app, Hn. cbn [lookup]. rewrite String.eqb_refl. reflexivity. }
+      split; [exact Hg|]. split; [apply nolit_litinv; exact Hnl|]. split; [intros H; contradiction|].
+      apply Hsem. cbn [st_imms]. apply in_or_app. right. left. reflexivity.
+    - (* a later read *)
+      eexists (mkpv (PVarL l) (imm_ty l) (KVar l) []), st.
+      split. { cbn [lower_expr lower_operand]. unfold bind, get. rewrite Hs. reflexivity. }
+      split; [apply st_ext_refl|]. split; [exact Hok|].
+      split; [exact Hg|]. split; [apply nolit_litinv; exact Hnl|]. split; [intros H; contradiction|].
+      apply Hsem. exact Hin.
+  Qed.
 
   Lemma inv_cast V ts sg w e : cast_ty ts sg w -> Inv V e -> Inv V (ECast ts e).
   Proof.
-    intros Hts IH st HV.
-    destruct (IH st HV) as [pa [st1 [L1 [S1 [Ga [La [Ll Hsem]]]]]]].
+    intros Hts IH st Hok.
+    destruct (IH st Hok) as [pa [st1 [L1 [S1 [K1 [Ga [La [Ll Hsem]]]]]]]].
     destruct (lower_cast_ok ts sg w pa st1 Hts Ga) as [r [R1 [R2 [R3 R4]]]].
     exists r, st1.
     split. { cbn [lower_expr]. (erewrite bind_OK by exact L1). exact R1. }
     split. { exact S1. }
+    split. { exact K1. }
     split. { exact R2. }
     split. { intros v b Hk. rewrite (R3 v b Hk) in Hk |- *. apply (La v b Hk). }
     split. { intros Hi. cbn [litlike]. apply Ll. unfold islit in *. destruct (pv_kind r) eqn:Hk; try contradiction. rewrite <- (R3 _ _ eq_refl). rewrite Hk. exact I. }
-    intros cs ms Hrel. destruct (Hsem cs ms Hrel) as [va [Sa Hc]].
+    intros HR Hrem cs ms Hrel Himm. destruct (Hsem HR Hrem cs ms Hrel Himm) as [va [Sa Hc]].
     destruct (R4 ms va Sa) as [vr [Sr Cr]]. exists vr. split; [exact Sr|].
     intros fuel cs' cv Hce Harms. destruct fuel as [|k]; [discriminate|].
-    cbn [ceval] in Hce. 
+    cbn [ceval] in Hce.
     destruct (cast_ty_ok ts sg w st Hts) as [_ [Rc _]]. rewrite Rc in Hce.
     destruct (ceval E csub xi k cs e) as [[s1 v1]|] eqn:Ece; [|discriminate].
     destruct (Hc k s1 v1 Ece Harms) as [-> ->]. injection Hce as <- <-. auto.
@@ -1209,8 +1680,8 @@ Section Correct.
 
   Lemma inv_un V u e : (u = UNot \/ u = UMinus \/ u = ULNot) -> Inv V e -> Inv V (EUn u e).
   Proof.
-    intros Hu IH st HV.
-    destruct (IH st HV) as [pa [st1 [L1 [S1 [Ga [La [Ll Hsem]]]]]]].
+    intros Hu IH st Hok.
+    destruct (IH st Hok) as [pa [st1 [L1 [S1 [K1 [Ga [La [Ll Hsem]]]]]]]].
     assert (exists r, lower_unop cfg u (IPure pa) st1 = OK (IPure r, st1) /\ goodpv r /\ litinv r /\
               (islit r -> litlike (EUn u e) = true) /\
               forall ms va, sem ms pa va ->
@@ -1236,10 +1707,10 @@ Section Correct.
     exists r, st1.
     split. { cbn [lower_expr]. (erewrite bind_OK by exact L1). exact R1. }
     repeat (split; [assumption|]).
-    intros cs ms Hrel. destruct (Hsem cs ms Hrel) as [va [Sa Hc]].
+    intros HR Hrem cs ms Hrel Himm. destruct (Hsem HR Hrem cs ms Hrel Himm) as [va [Sa Hc]].
     destruct (R5 ms va Sa) as [vr [Sr Cr]]. exists vr. split; [exact Sr|].
     intros fuel cs' cv Hce Harms. destruct fuel as [|k]; [discriminate|].
-    cbn [ceval] in Hce. 
+    cbn [ceval] in Hce.
     destruct (ceval E csub xi k cs e) as [[s1 v1]|] eqn:Ece; [|discriminate].
     destruct (Hc k s1 v1 Ece Harms) as [-> ->]. rewrite Cr in Hce. cbn in Hce. injection Hce as <- <-. auto.
   Qed.
@@ -1265,18 +1736,20 @@ Section Correct.
              forall cv, c_binop b (cval_of (pv_ty pl) va) (cval_of (pv_ty pr) vc) = Some cv -> cv = cval_of (pv_ty q) vr) ->
     Inv V (EBin b l r).
   Proof.
-    intros Hb1 Hb2 IHl IHr Hop st HV.
-    destruct (IHl st HV) as [pl [st1 [L1 [S1 [Gl [Il [Ll Hseml]]]]]]].
-    assert (HV1 : st_vars st1 = V) by (destruct S1 as [S1 _]; congruence).
-    destruct (IHr st1 HV1) as [pr [st2 [L2 [S2 [Gr [Ir [Lr Hsemr]]]]]]].
+    intros Hb1 Hb2 IHl IHr Hop st Hok.
+    destruct (IHl st Hok) as [pl [st1 [L1 [S1 [K1 [Gl [Il [Ll Hseml]]]]]]]].
+    destruct (IHr st1 K1) as [pr [st2 [L2 [S2 [K2 [Gr [Ir [Lr Hsemr]]]]]]]].
     destruct (Hop pl pr st2 Gl Gr Il Ir Ll Lr) as [q [Q1 [Q2 [Q3 [Q5 Q4]]]]].
     exists q, st2.
     split. { cbn [lower_expr]. (erewrite bind_OK by exact L1). (erewrite bind_OK by exact L2). exact Q1. }
-    split. { eapply st_same_trans; eauto. }
+    split. { eapply st_ext_trans; eauto. }
+    split. { exact K2. }
     split. { exact Q2. }
     split. { exact Q3. }
     split. { exact Q5. }
-    intros cs ms Hrel. destruct (Hseml cs ms Hrel) as [va [Sa Hca]]. destruct (Hsemr cs ms Hrel) as [vc [Sc Hcc]].
+    intros HR Hrem cs ms Hrel Himm.
+    destruct (semok_mono _ _ _ _ _ S2 Hseml HR Hrem cs ms Hrel Himm) as [va [Sa Hca]].
+    destruct (Hsemr HR Hrem cs ms Hrel Himm) as [vc [Sc Hcc]].
     destruct (Q4 ms va vc Sa Sc) as [vr [Sr Cr]]. exists vr. split; [exact Sr|].
     intros fuel cs' cv Hce Harms. destruct fuel as [|k]; [discriminate|].
     rewrite ceval_bin_strict in Hce by auto. pose proof I as Ha1; pose proof I as Ha2.
@@ -1346,18 +1819,20 @@ Section Correct.
 
   Lemma inv_logic V b l r : (b = Ast.BLAnd \/ b = Ast.BLOr) -> Inv V l -> Inv V r -> Inv V (EBin b l r).
   Proof.
-    intros Hb IHl IHr st HV.
-    destruct (IHl st HV) as [pl [st1 [L1 [S1 [Gl [_ [_ Hseml]]]]]]].
-    assert (HV1 : st_vars st1 = V) by (destruct S1 as [S1 _]; congruence).
-    destruct (IHr st1 HV1) as [pr [st2 [L2 [S2 [Gr [_ [_ Hsemr]]]]]]].
+    intros Hb IHl IHr st Hok.
+    destruct (IHl st Hok) as [pl [st1 [L1 [S1 [K1 [Gl [_ [_ Hseml]]]]]]]].
+    destruct (IHr st1 K1) as [pr [st2 [L2 [S2 [K2 [Gr [_ [_ Hsemr]]]]]]]].
     destruct (lower_logic_ok b pl pr st2 Hb Gl Gr) as [q [Q1 [Q2 [Q3 Q4]]]].
     exists q, st2.
     split. { cbn [lower_expr]. (erewrite bind_OK by exact L1). (erewrite bind_OK by exact L2). exact Q1. }
-    split. { eapply st_same_trans; eauto. }
+    split. { eapply st_ext_trans; eauto. }
+    split. { exact K2. }
     split. { exact Q2. }
     split. { apply nolit_litinv; auto. }
     split. { intros; contradiction. }
-    intros cs ms Hrel. destruct (Hseml cs ms Hrel) as [va [Sa Hca]]. destruct (Hsemr cs ms Hrel) as [vc [Sc Hcc]].
+    intros HR Hrem cs ms Hrel Himm.
+    destruct (semok_mono _ _ _ _ _ S2 Hseml HR Hrem cs ms Hrel Himm) as [va [Sa Hca]].
+    destruct (Hsemr HR Hrem cs ms Hrel Himm) as [vc [Sc Hcc]].
     pose proof (Q4 ms va vc Sa Sc) as Sr. eexists. split; [exact Sr|].
     assert (Tq : pv_ty q = ty_bool).
     { destruct Sr as [_ Sh]. destruct Q2 as [[T _] | [s0 [w0 [_ [T _]]]]]; [exact T|]. rewrite T in Sh. destruct Sh as [z [Hz _]]. discriminate. }
@@ -1377,22 +1852,23 @@ Section Correct.
 
   Lemma inv_cond V c t f : Inv V c -> Inv V t -> Inv V f -> litlike c = false -> Inv V (ECond c t f).
   Proof.
-    intros IHc IHt IHf Hnl st HV.
-    destruct (IHc st HV) as [pc [st1 [L1 [S1 [Gc [_ [Lc Hsemc]]]]]]].
-    assert (HV1 : st_vars st1 = V) by (destruct S1 as [S1 _]; congruence).
-    destruct (IHt st1 HV1) as [pt [st2 [L2 [S2 [Gt [_ [_ Hsemt]]]]]]].
-    assert (HV2 : st_vars st2 = V) by (destruct S2 as [S2 _]; congruence).
-    destruct (IHf st2 HV2) as [pf [st3 [L3 [S3 [Gf [_ [_ Hsemf]]]]]]].
+    intros IHc IHt IHf Hnl st Hok.
+    destruct (IHc st Hok) as [pc [st1 [L1 [S1 [K1 [Gc [_ [Lc Hsemc]]]]]]]].
+    destruct (IHt st1 K1) as [pt [st2 [L2 [S2 [K2 [Gt [_ [_ Hsemt]]]]]]]].
+    destruct (IHf st2 K2) as [pf [st3 [L3 [S3 [K3 [Gf [_ [_ Hsemf]]]]]]]].
     assert (Hn : ~ islit pc) by (intros Hi; rewrite (Lc Hi) in Hnl; discriminate).
     destruct (cond_tail_ok pc pt pf st3 Gc Gt Gf Hn) as [q [Q1 [Q2 [Q3 Q4]]]].
     exists q, st3.
     split. { rewrite lower_expr_cond. (erewrite bind_OK by exact L1). (erewrite bind_OK by exact L2). (erewrite bind_OK by exact L3). exact Q1. }
-    split. { eapply st_same_trans; [|exact S3]. eapply st_same_trans; eauto. }
+    split. { eapply st_ext_trans; [|exact S3]. eapply st_ext_trans; eauto. }
+    split. { exact K3. }
     split. { exact Q2. }
     split. { apply nolit_litinv; auto. }
     split. { intros; contradiction. }
-    intros cs ms Hrel.
-    destruct (Hsemc cs ms Hrel) as [vc [Sc Hcc]]. destruct (Hsemt cs ms Hrel) as [vt [St Hct]]. destruct (Hsemf cs ms Hrel) as [vf [Sf Hcf]].
+    intros HR Hrem cs ms Hrel Himm.
+    destruct (semok_mono _ _ _ _ _ (st_ext_trans _ _ _ S2 S3) Hsemc HR Hrem cs ms Hrel Himm) as [vc [Sc Hcc]].
+    destruct (semok_mono _ _ _ _ _ S3 Hsemt HR Hrem cs ms Hrel Himm) as [vt [St Hct]].
+    destruct (Hsemf HR Hrem cs ms Hrel Himm) as [vf [Sf Hcf]].
     destruct (Q4 ms vc vt vf Sc St Sf) as [vr [Sr Cr]]. exists vr. split; [exact Sr|].
     intros fuel cs' cv Hce Harms. destruct fuel as [|k]; [discriminate|].
     cbn [ceval] in Hce. pose proof I as Ha1; pose proof I as Ha2; pose proof I as Ha3.
@@ -1412,6 +1888,9 @@ Section Correct.
     induction 1.
     - eapply inv_ident; eauto.
     - eapply inv_num; eauto.
+    - eapply inv_reg; eauto.
+    - eapply inv_newreg; eauto.
+    - apply inv_imm; auto.
     - eapply inv_cast; eauto.
     - apply inv_un; auto.
     - destruct H as [H | H]; [apply inv_fold; auto|].
@@ -1434,42 +1913,78 @@ Definition agrees (pv : pval) (cv : cval) (ilv : val) : Prop :=
   | VBv _ z => cv = ((vt_sg (pv_ty pv), vt_w (pv_ty pv)), z)
   end.
 
-Theorem expr_correct : forall (cfg : config) (rw : regwidth) (E : cenv) (csub : csubs) xi V e st,
-  cfg_fx cfg = all_fixes -> cfg_params cfg = [] -> st_vars st = V -> pfrag V e ->
-  exists pv st', lower_expr cfg e st = OK (IPure pv, st') /\ st_same st st' /\
-    forall cs ms, rel V cs ms ->
-      exists ilv, eval rw ms [] (pv_term pv) = Some ilv /\ shape_pv pv ilv /\
+(* the initial model state, and any state whose table holds declared locals only, are states of the fragment *)
+Lemma lst_ok_plain IM V st : st_vars st = V -> (forall l, IM l = true -> lookup l V = None) ->
+  st_imms st = [] -> regs_ok (st_regs st) -> lst_ok IM V st.
+Proof.
+  intros HV Hn Hi Hr. unfold lst_ok. rewrite HV, Hi.
+  split; [reflexivity|]. split; [exact Hn|]. split; [intros l Hl; left; apply Hn; exact Hl|]. split; [constructor | exact Hr].
+Qed.
+Lemma lst_ok_init IM cfg : lst_ok IM [] (init_state cfg).
+Proof. apply lst_ok_plain; [reflexivity | reflexivity | reflexivity | apply regs_ok_nil]. Qed.
+
+(* the lowering does not depend on the table R the result is later finalised against: the existential
+   witnesses of a statement proved for every R can be chosen before R *)
+Lemma exists_forall_swap {A B X : Type} (f : res (A * B)) (P : X -> A -> B -> Prop) (x0 : X) :
+  (forall x, exists a b, f = OK (a, b) /\ P x a b) ->
+  exists a b, f = OK (a, b) /\ forall x, P x a b.
+Proof.
+  intros H. destruct (H x0) as [a [b [L _]]]. exists a, b. split; [exact L|].
+  intros x. destruct (H x) as [a2 [b2 [L2 P2]]]. rewrite L in L2. injection L2 as <- <-. exact P2.
+Qed.
+
+Theorem expr_correct : forall (cfg : config) (rw : regwidth) (IM : string -> bool) (E : cenv) (csub : csubs) xi V e st,
+  cfg_fx cfg = all_fixes -> cfg_params cfg = [] -> lst_ok IM V st -> pfrag rw IM V e ->
+  exists pv st', lower_expr cfg e st = OK (IPure pv, st') /\ st_ext st st' /\ lst_ok IM V st' /\
+    forall R rem, regs_le (st_regs st') R -> norem rem ->
+    forall cs ms, rel IM E V cs ms -> imms_done IM (st_imms st') ms ->
+      exists ilv, eval rw ms [] (fin_pure R rem (pv_term pv)) = Some ilv /\ shape_pv pv ilv /\
         forall fuel cs' cv, ceval E csub xi fuel cs e = Some (cs', cv) -> arms_ok fuel cs e ->
           cs' = cs /\ agrees pv cv ilv.
 Proof.
-  intros cfg rw E csub xi V e st Hfx Hpar HV Hfrag.
+  intros cfg rw IM E csub xi V e st Hfx Hpar Hok Hfrag.
   destruct cfg as [fx0 subs macs params cret hstart]. cbn in Hfx, Hpar. subst fx0 params.
-  destruct (expr_inv subs macs cret hstart rw E csub xi V e Hfrag st HV) as [pv [st' [L [S [G [_ [_ Hsem]]]]]]].
-  exists pv, st'. split; [exact L|]. split; [exact S|].
-  intros cs ms Hrel. destruct (Hsem cs ms Hrel) as [ilv [[He Hs] Hc]].
-  exists ilv. split; [exact He|].
-  destruct G as [[Ht Hk] | [sg [w [Hw [Ht Hk]]]]].
-  - unfold shape_pv, shape in *. rewrite Ht in *. cbn [vt_bool ty_bool] in *. destruct Hs as [b ->]. split; [eauto|].
-    intros fuel cs' cv H1 H2. destruct (Hc fuel cs' cv H1 H2) as [-> ->]. split; reflexivity.
-  - unfold shape_pv, shape in *. rewrite Ht in *. cbn [vt_bool vt_w vt_sg ty_int] in *. destruct Hs as [z [-> Hz]].
-    split; [exists z; auto|].
-    intros fuel cs' cv H1 H2. destruct (Hc fuel cs' cv H1 H2) as [-> ->]. split; [reflexivity|].
-    unfold agrees. rewrite Ht. reflexivity.
+  match goal with |- exists pv st', ?f = OK (IPure pv, st') /\ _ =>
+    destruct (exists_forall_swap (match f with OK (IPure p, s) => OK (p, s) | OK _ => Err "" | Err m => Err m end)
+                (fun (x : list (string * reginfo) * list string) pv st' => st_ext st st' /\ lst_ok IM V st' /\
+      (regs_le (st_regs st') (fst x) -> norem (snd x) ->
+       forall cs ms, rel IM E V cs ms -> imms_done IM (st_imms st') ms ->
+        exists ilv, eval rw ms [] (fin_pure (fst x) (snd x) (pv_term pv)) = Some ilv /\ shape_pv pv ilv /\
+          forall fuel cs' cv, ceval E csub xi fuel cs e = Some (cs', cv) -> arms_ok fuel cs e ->
+            cs' = cs /\ agrees pv cv ilv)) ([], [])) as [pv [st' [L H]]]
+  end.
+  - intros [R rem]. cbn [fst snd].
+    destruct (expr_inv subs macs cret hstart rw R rem IM E csub xi V e Hfrag st Hok) as [pv [st' [L [S [K [G [_ [_ Hsem]]]]]]]].
+    exists pv, st'. split; [rewrite L; reflexivity|]. split; [exact S|]. split; [exact K|].
+    intros HR Hrem cs ms Hrel Himm. destruct (Hsem HR Hrem cs ms Hrel Himm) as [ilv [[He Hs] Hc]].
+    exists ilv. split; [exact He|].
+    destruct G as [[Ht Hk] | [sg [w [Hw [Ht Hk]]]]].
+    + unfold shape_pv, shape in *. rewrite Ht in *. cbn [vt_bool ty_bool] in *. destruct Hs as [b ->]. split; [eauto|].
+      intros fuel cs' cv H1 H2. destruct (Hc fuel cs' cv H1 H2) as [-> ->]. split; reflexivity.
+    + unfold shape_pv, shape in *. rewrite Ht in *. cbn [vt_bool vt_w vt_sg ty_int] in *. destruct Hs as [z [-> Hz]].
+      split; [exists z; auto|].
+      intros fuel cs' cv H1 H2. destruct (Hc fuel cs' cv H1 H2) as [-> ->]. split; [reflexivity|].
+      unfold agrees. rewrite Ht. reflexivity.
+  - exists pv, st'. destruct (H ([], [])) as [S [K _]].
+    split; [|split; [exact S|split; [exact K|intros R rem; apply (H (R, rem))]]].
+    destruct (lower_expr _ e st) as [[[] s]|]; try discriminate L. injection L as -> ->. reflexivity.
 Qed.
 Print Assumptions expr_correct.
 
 
-Theorem expr_correct_unconditional : forall (cfg : config) (rw : regwidth) (E : cenv) (csub : csubs) xi V e st,
-  cfg_fx cfg = all_fixes -> cfg_params cfg = [] -> st_vars st = V -> pfrag V e ->
-  exists pv st', lower_expr cfg e st = OK (IPure pv, st') /\ st_same st st' /\
-    forall cs ms, rel V cs ms ->
-      exists ilv, eval rw ms [] (pv_term pv) = Some ilv /\ shape_pv pv ilv /\
+Theorem expr_correct_unconditional : forall (cfg : config) (rw : regwidth) (IM : string -> bool) (E : cenv) (csub : csubs) xi V e st,
+  cfg_fx cfg = all_fixes -> cfg_params cfg = [] -> lst_ok IM V st -> pfrag rw IM V e ->
+  exists pv st', lower_expr cfg e st = OK (IPure pv, st') /\ st_ext st st' /\ lst_ok IM V st' /\
+    forall R rem, regs_le (st_regs st') R -> norem rem ->
+    forall cs ms, rel IM E V cs ms -> imms_done IM (st_imms st') ms ->
+      exists ilv, eval rw ms [] (fin_pure R rem (pv_term pv)) = Some ilv /\ shape_pv pv ilv /\
         forall fuel cs' cv, ceval E csub xi fuel cs e = Some (cs', cv) -> cs' = cs /\ agrees pv cv ilv.
 Proof.
-  intros cfg rw E csub xi V e st Hfx Hpar HV Hfrag.
-  destruct (expr_correct cfg rw E csub xi V e st Hfx Hpar HV Hfrag) as [pv [st' [L [S H]]]].
-  exists pv, st'. split; [exact L|]. split; [exact S|].
-  intros cs ms Hrel. destruct (H cs ms Hrel) as [ilv [He [Hs Hc]]]. exists ilv. split; [exact He|]. split; [exact Hs|].
+  intros cfg rw IM E csub xi V e st Hfx Hpar Hok Hfrag.
+  destruct (expr_correct cfg rw IM E csub xi V e st Hfx Hpar Hok Hfrag) as [pv [st' [L [S [K H]]]]].
+  exists pv, st'. split; [exact L|]. split; [exact S|]. split; [exact K|].
+  intros R rem HR Hrem cs ms Hrel Himm. destruct (H R rem HR Hrem cs ms Hrel Himm) as [ilv [He [Hsh Hc]]].
+  exists ilv. split; [exact He|]. split; [exact Hsh|].
   intros fuel cs' cv H1. apply (Hc fuel cs' cv H1). exact I.
 Qed.
 Print Assumptions expr_correct_unconditional.
